@@ -93,8 +93,8 @@ def check_closed_form(case):
 @st.composite
 def st_closed(draw):
     return {"theta": draw(st.one_of(st.sampled_from([10.0, 30.0, 45.0, 60.0, 89.0, 90.0, 91.0, 120.0, 135.0, 170.0]), st.floats(5.0, 175.0))),
-            "eps": draw(gen.st_logfloat(0.01, 1.0)), "delta": draw(gen.st_logfloat(1e-4, 0.5)),
-            "noise_var": draw(gen.st_logfloat(1e-3, 10.0)), "psi_frac": draw(st.floats(-0.95, 0.95)),
+            "eps": draw(st.one_of(gen.st_logfloat(0.01, 1.0), gen.st_logfloat(1.0, 100.0))), "delta": draw(gen.st_logfloat(1e-4, 0.5)),
+            "noise_var": draw(st.one_of(gen.st_logfloat(1e-3, 10.0), gen.st_logfloat(10.0, 1e4))), "psi_frac": draw(st.floats(-0.95, 0.95)),
             "eta": draw(gen.st_logfloat(1e-3, 0.5)), "base": [draw(st.floats(-1, 1)), draw(st.floats(-1, 1))]}
 
 
